@@ -523,8 +523,44 @@ def r9(R):
         T.seed(x, c.dest["l"], "graph-outcome")
     T.run()
     DEFAULTING = ("unwrap_or", "unwrap_or_default", "unwrap_or_else", "map_or", "map_or_else", "or", "or_else", "get_or_insert", "get_or_insert_with")
-    bad = [(x, c) for x in fam for c in x.calls() if c.name() in DEFAULTING and c.args and "graph-outcome" in T.op_taint(x, c.args[0])
-           and "GraphId" in x.local_ty((F.op_place(c.args[0]) or {"l": 0})["l"])]
+    cand = [(x, c) for x in fam for c in x.calls() if c.name() in DEFAULTING and c.args and "graph-outcome" in T.op_taint(x, c.args[0])
+            and "GraphId" in x.local_ty((F.op_place(c.args[0]) or {"l": 0})["l"])]
+    # a default is harmless where the `could not be instantiated` outcome has already left the function: the None edge of a test of the
+    # outcome does not reach the defaulting call
+    direct = {}
+    for x, c in ig:
+        ds = {c.dest["l"]}
+        changed = True
+        while changed:
+            changed = False
+            for l, defs in x.defs().items():
+                if l in ds or len(defs) != 1:
+                    continue
+                d = defs[0]
+                src = None
+                if d[0] == "assign" and d[3]["rv"] in ("use", "ref", "cast", "discriminant"):
+                    pp = F.op_place(d[3]["op"]) if d[3]["rv"] in ("use", "cast") else d[3]["pl"]
+                    src = pp["l"] if pp else None
+                elif d[0] == "call" and d[2].name() in ("branch", "from_residual", "into", "deref") and d[2].args and F.op_place(d[2].args[0]):
+                    src = F.op_place(d[2].args[0])["l"]
+                if src in ds:
+                    ds.add(l)
+                    changed = True
+        direct.setdefault(x.key, set()).update(ds)
+    none_targets = {}
+    for x in fam:
+        for bb, t in x.terms():
+            if t["t"] != "switch":
+                continue
+            for tgt, cd in G.edge_conditions(x, bb):
+                if cd.get("kind") == "variant" and cd.get("variant") == "None" and cd.get("pl") and cd["pl"]["l"] in direct.get(x.key, ()) \
+                        and "GraphId" in x.local_ty(cd["pl"]["l"]):
+                    none_targets.setdefault(x.key, []).append(tgt)
+    bad = []
+    for x, c in cand:
+        tgts = none_targets.get(x.key, [])
+        if not tgts or any(c.bb in x.reach_from([t]) for t in tgts):
+            bad.append((x, c))
     R.ob("C03-R9", "no-default", "no default stands in for a graph name that could not be instantiated (defaulting calls on the outcome: %s)" % sorted({c.name() for x, c in bad}),
          not bad, where=(bad[0][0].where(bad[0][1].ln) if bad else b.where()),
          detail=None if not bad else "`DELETE { GRAPH ?g { ?s ?p ?o } } WHERE { { ?s ?p ?o } UNION { GRAPH ?g { ?s ?p ?o } } }` empties the default graph")
